@@ -21,15 +21,16 @@ VARIABLES l, tid, cfg,    \* cfg: the reset line of the current run
           emitted,        \* [node -> sequence of kinds emitted]
           rets,           \* set of [node, returned, ok, pub]
           signbad,        \* "none" | "ok" | "bad" | "panic"
+          sgrets,         \* orchestrated signing: set of [node, returned, ok, verified]
           crashed, drift, viol
 
-vars == <<l, tid, cfg, got, emitted, rets, signbad, crashed, drift, viol>>
+vars == <<l, tid, cfg, got, emitted, rets, signbad, sgrets, crashed, drift, viol>>
 Line == Trace[l]
 Rng(s) == {s[i] : i \in DOMAIN s}
 
 NoCfg == [n |-> 0, th |-> 0, ids |-> <<>>, byz |-> FALSE, fault |-> [silent_peer |-> 0, after |-> 0, withhold_idx |-> -1], scheme |-> "", mode |-> ""]
 
-Init == /\ l = 1 /\ tid = -1 /\ cfg = NoCfg /\ got = <<>> /\ emitted = <<>> /\ rets = {} /\ signbad = "none"
+Init == /\ l = 1 /\ tid = -1 /\ cfg = NoCfg /\ got = <<>> /\ emitted = <<>> /\ rets = {} /\ signbad = "none" /\ sgrets = {}
         /\ crashed = FALSE /\ drift = "" /\ viol = {}
 
 Nodes == Rng(cfg.ids)
@@ -46,18 +47,18 @@ Reset ==
   /\ tid' = Line.t /\ cfg' = IF "ids" \in DOMAIN Line THEN Line ELSE NoCfg
   /\ got' = IF "ids" \in DOMAIN Line THEN [x \in Rng(Line.ids) |-> [k \in 1..3 |-> {}]] ELSE <<>>
   /\ emitted' = IF "ids" \in DOMAIN Line THEN [x \in Rng(Line.ids) |-> <<>>] ELSE <<>>
-  /\ rets' = {} /\ signbad' = "none" /\ crashed' = FALSE /\ drift' = "" /\ viol' = {}
+  /\ rets' = {} /\ signbad' = "none" /\ sgrets' = {} /\ crashed' = FALSE /\ drift' = "" /\ viol' = {}
 
 InitEv ==
   /\ Line.e = "init"
   /\ SetDrift(IF Line.parties = cfg.ids /\ Line.threshold = cfg.th THEN "" ELSE "Init arguments differ from the configuration")
-  /\ UNCHANGED <<tid, cfg, got, emitted, rets, signbad, crashed, viol>>
+  /\ UNCHANGED <<tid, cfg, got, emitted, rets, signbad, sgrets, crashed, viol>>
 
 OnMsgEv ==
   /\ Line.e = "onmsg"
   /\ got' = IF Line.kind \in 1..3 /\ Line.node \in DOMAIN got THEN [got EXCEPT ![Line.node][Line.kind] = @ \cup {Line.from}] ELSE got
   /\ SetDrift(IF Line.kind \in 1..3 /\ Line.bc # (Line.kind # 1) THEN "message class differs from the protocol (shares are point-to-point, commitments and reveals broadcast)" ELSE "")
-  /\ UNCHANGED <<tid, cfg, emitted, rets, signbad, crashed, viol>>
+  /\ UNCHANGED <<tid, cfg, emitted, rets, signbad, sgrets, crashed, viol>>
 
 \* a message emitted by the back end of an honest node: the phase structure of DKG.tla
 SendEv ==
@@ -73,22 +74,27 @@ SendEv ==
                  ELSE "")
      /\ Check({\* C05: no honest party discloses its public-key contribution before it holds the commitments of all others
                <<"RevealOnlyAfterAllCommits", (honest /\ Line.kind = 3) => got[x][2] = others>>})
-  /\ UNCHANGED <<tid, cfg, got, rets, signbad, crashed>>
+  /\ UNCHANGED <<tid, cfg, got, rets, signbad, sgrets, crashed>>
 
 RetEv ==
   /\ Line.e = "kgret"
   /\ rets' = rets \cup {[node |-> Line.node, returned |-> Line.returned, ok |-> Line.ok, pub |-> Line.pub]}
-  /\ UNCHANGED <<tid, cfg, got, emitted, signbad, crashed, drift, viol>>
+  /\ UNCHANGED <<tid, cfg, got, emitted, signbad, sgrets, crashed, drift, viol>>
 
 SignEv ==
   /\ Line.e = "signcheck"
   /\ signbad' = IF Line.panic # "" THEN "panic" ELSE IF Len(Line.bad) > 0 THEN "bad" ELSE "ok"
-  /\ UNCHANGED <<tid, cfg, got, emitted, rets, crashed, drift, viol>>
+  /\ UNCHANGED <<tid, cfg, got, emitted, rets, sgrets, crashed, drift, viol>>
+
+SgRetEv ==
+  /\ Line.e = "sgret"
+  /\ sgrets' = sgrets \cup {[node |-> Line.node, returned |-> Line.returned, ok |-> Line.ok, verified |-> Line.verified]}
+  /\ UNCHANGED <<tid, cfg, got, emitted, rets, signbad, crashed, drift, viol>>
 
 CrashEv ==
   /\ Line.e = "crash"
   /\ crashed' = TRUE
-  /\ UNCHANGED <<tid, cfg, got, emitted, rets, signbad, drift, viol>>
+  /\ UNCHANGED <<tid, cfg, got, emitted, rets, signbad, sgrets, drift, viol>>
 
 EndEv ==
   /\ Line.e = "end"
@@ -104,11 +110,14 @@ EndEv ==
           <<"HonestRunCompletes", (~Faulty /\ ~crashed /\ "cancel" \notin DOMAIN cfg) => (Cardinality(oks) = cfg.n /\ Cardinality(hrets) = cfg.n)>>,
           \* C11: every call returns (a value or an error) by its deadline plus a grace period, nothing crashes
           <<"EveryCallReturns", ~crashed => \A r \in hrets : r.returned>>,
+          \* C01: every participant of an orchestrated signing session among an authorised set obtains a valid signature
+          <<"EveryParticipantGotValidSig", (~Faulty /\ cfg.scheme = "eddsa" /\ ~crashed) =>
+                 (Cardinality(sgrets) = cfg.n /\ \A x \in sgrets : x.returned /\ x.ok /\ x.verified)>>,
           <<"NoCrash", ~crashed>>,
           <<"NoPanicInUse", signbad # "panic">>})
      /\ PrintT(<<"END", ToJson([t |-> tid, drift |-> drift, completed |-> Cardinality(oks), crashed |-> crashed])>>)
-  /\ UNCHANGED <<tid, cfg, got, emitted, rets, signbad, crashed, drift>>
+  /\ UNCHANGED <<tid, cfg, got, emitted, rets, signbad, sgrets, crashed, drift>>
 
 Next == /\ l <= Len(Trace) /\ l' = l + 1
-        /\ (Reset \/ InitEv \/ OnMsgEv \/ SendEv \/ RetEv \/ SignEv \/ CrashEv \/ EndEv)
+        /\ (Reset \/ InitEv \/ OnMsgEv \/ SendEv \/ RetEv \/ SignEv \/ SgRetEv \/ CrashEv \/ EndEv)
 =============================================================================
